@@ -1,9 +1,12 @@
 import PebblesVerif.Model.Merge
+import PebblesVerif.Basic.Tum
 /-!
 # Model of `merger.TypeURLMap` (type_url_map.go) and `PlanningContext.GetURL` (planner/context.go)
 
-`map[typename]*TypeProps{Fields map[fieldname]url, IsImplementsNode}` as association lists
-(first binding of a key is the binding; `set` replaces it in place). `SetFromSchema` ranges over
+BUILDS values of the shared table type `PebblesVerif.Tum` (Basic/Tum.lean:
+`map[typename]*TypeProps{Fields map[fieldname]url, IsImplementsNode}` as association lists, first
+binding of a key is the binding; lookups `Tum.get?`, `Tum.isNode?`, `Tum.props?`, `Tum.urls` live
+there); `set` replaces a binding in place. `SetFromSchema` ranges over
 a Go map of definitions: entries of different keys touch different rows, so the table does not
 depend on the iteration order; the model iterates in list order. `GetURLs` and `GetForType`
 come out of Go maps: `getURLs` is a duplicate-free list to be read as a SET, `getForType` is
@@ -13,18 +16,14 @@ namespace PebblesVerif.TUM
 open PebblesVerif PebblesVerif.Merge
 open PebblesVerif.Gen.Merge (Facts idFieldName nodeInterfaceName)
 
-structure TypeProps where
-  fields : List (String × String) := []     -- fieldname ↦ url
-  implementsNode : Bool := false
-  deriving Repr, Inhabited, DecidableEq
+abbrev Table := Tum
 
-abbrev Table := List (String × TypeProps)
-
-def row? (t : Table) (T : String) : Option TypeProps := (t.find? (·.1 == T)).map (·.2)
+/-- `&TypeProps{Fields: make(map[string]string)}` -/
+def emptyProps : TypeProps := { fields := [], isNode := false }
 
 /-- update the row of `T` (created empty when absent: `t[typename] == nil`) -/
 def updRow (T : String) (g : TypeProps → TypeProps) : Table → Table
-  | [] => [(T, g {})]
+  | [] => [(T, g emptyProps)]
   | (k, p) :: rest => if k == T then (k, g p) :: rest else (k, p) :: updRow T g rest
 
 def setField (f u : String) : List (String × String) → List (String × String)
@@ -36,23 +35,13 @@ def set (t : Table) (T f u : String) : Table :=
   if f == idFieldName then t else updRow T (fun p => { p with fields := setField f u p.fields }) t
 
 /-- `SetTypeIsImplementsNode` -/
-def setNode (t : Table) (T : String) : Table := updRow T (fun p => { p with implementsNode := true }) t
+def setNode (t : Table) (T : String) : Table := updRow T (fun p => { p with isNode := true }) t
 
-/-- `Get` -/
-def get (t : Table) (T f : String) : Option String :=
-  match row? t T with
-  | none => none
-  | some p => (p.fields.find? (·.1 == f)).map (·.2)
-
-/-- `GetTypeIsImplementsNode`: `none` = `ok == false` -/
-def isNode? (t : Table) (T : String) : Option Bool := (row? t T).map (·.implementsNode)
-
-def dedup : List String → List String
-  | [] => []
-  | x :: xs => x :: (dedup xs).filter (· != x)
-
-/-- `GetURLs`: every url stored for some field, once; ORDER is Go map order (a set) -/
-def getURLs (t : Table) : List String := dedup (t.flatMap (fun r => r.2.fields.map (·.2)))
+/-- `Get` is `Tum.get?`, `GetTypeIsImplementsNode` is `Tum.isNode?`, `GetURLs` is `Tum.urls`
+    (every url stored for some field, once; ORDER is Go map order: a set) -/
+abbrev get (t : Table) (T f : String) : Option String := Tum.get? t T f
+abbrev isNode? (t : Table) (T : String) : Option Bool := Tum.isNode? t T
+abbrev getURLs (t : Table) : List String := Tum.urls t
 
 def insertSorted (x : String) : List String → List String
   | [] => [x]
@@ -62,7 +51,7 @@ def sortStrings (l : List String) : List String := l.foldr insertSorted []
 
 /-- `GetForType`: urls of the row, once, `sort.Strings`-ed; `none` = `ok == false` -/
 def getForType (t : Table) (T : String) : Option (List String) :=
-  (row? t T).map (fun p => sortStrings (dedup (p.fields.map (·.2))))
+  (Tum.props? t T).map (fun p => sortStrings (Tum.dedup (p.fields.map (·.2))))
 
 /-- which fields `SetFromSchema` leaves out besides `id` -/
 def skipsField (F : Facts) (T : String) (f : FieldDef) : Bool :=
